@@ -127,7 +127,7 @@ pub fn run_check(spec: &PropertySpec, opts: &CheckOpts) -> i32 {
         } else if f.v.property() == spec.id {
             mine.entry((f.v.invariant.clone(), f.v.key.clone())).or_default().push(f);
         } else {
-            *others.entry(f.v.invariant.clone()).or_default() += 1;
+            *others.entry(f.v.invariant.clone()).or_default() += f.count;
         }
     }
     if !others.is_empty() {
@@ -141,7 +141,7 @@ pub fn run_check(spec: &PropertySpec, opts: &CheckOpts) -> i32 {
         let first = fs[0];
         if let Some(k) = matches_open(&kf, &first.v) {
             n_known += 1;
-            println!("KNOWN-FINDING: property={} {} [{} key={} occurrences={}]", spec.id, k.summary, inv, key, fs.len());
+            println!("KNOWN-FINDING: property={} {} [{} key={} occurrences={}]", spec.id, k.summary, inv, key, fs.iter().map(|f| f.count).sum::<u64>());
             continue;
         }
         n_violations += 1;
@@ -175,9 +175,9 @@ pub fn run_check(spec: &PropertySpec, opts: &CheckOpts) -> i32 {
             eprintln!("HARNESS-ERROR: cannot write {}: {}", fname, e);
             return 2;
         }
-        println!("  violated {} key={} occurrences={} first_run={} : {}", inv, key, fs.len(), first.run, min_v.detail);
+        println!("  violated {} key={} occurrences={} first_run={} : {}", inv, key, fs.iter().map(|f| f.count).sum::<u64>(), first.run, min_v.detail);
         println!("VIOLATION property={} replay={}", spec.id, fname);
-        violation_reports.push(json!({"invariant": inv, "key": key, "occurrences": fs.len(), "replay": fname, "detail": min_v.detail}));
+        violation_reports.push(json!({"invariant": inv, "key": key, "occurrences": fs.iter().map(|f| f.count).sum::<u64>(), "replay": fname, "detail": min_v.detail}));
     }
 
     // ---- evidence
